@@ -22,6 +22,8 @@ B24(b, i) == (b[i] * 256 + b[i+1]) * 256 + b[i+2]
 
 Sub(b, i, n) == IF n <= 0 THEN <<>> ELSE SubSeq(b, i, i + n - 1)
 Take(b, n) == SubSeq(b, 1, n)
+\* a fixed-width slot holding a byte string of any length: cut or zero-filled to w bytes
+Fix(b, w) == [i \in 1..w |-> IF i <= Len(b) THEN b[i] ELSE 0]
 Drop(b, n) == SubSeq(b, n + 1, Len(b))
 
 PadLen(n, a) == ((a - (n % a)) % a)
